@@ -236,6 +236,7 @@ CTOR_INIT = [
 
 PROXY_ACCESS = [
     Rule("proxy.member", r'\bproxy\.suv([12])\.', r'proxy->suv\1->'),
+    Rule("proxy.addr", r'&\s*proxy\.suv([12])\b(?!\s*\.)', r'proxy->suv\1'),
     Rule("proxy.steal", r'\bproxy\.mayStealArg([12])\(\)', r'mayStealArg\1(proxy)'),
 ]
 
@@ -312,8 +313,15 @@ SQUIDS_C05 = [
          r'{ LOG(K_ADDRR,0,0,\1,ret,&\2,&\4,0,\3); return; }'),
 ]
 
+HOLDERS = [
+    Rule("holder.decl", r'SQUIDS_THREAD_LOCAL\s+math_detail::gsl_matrix_complex_holder\s+(\w+)\s*;', r'struct holder* \1=&\1_;'),
+    Rule("holder.reset", r'\b(U1|U2|T1|mv|mu|em)\.reset\s*\(', r'holder_reset(\1,'),
+    Rule("holder.use", r'(?<![\w.>&])(U1|U2|T1)(?=\s*[,)])', r'(&\1->m)'),
+]
+
 RULESETS = {
     "common": COMMON,
+    "holders": HOLDERS,
     "squids_c05": SQUIDS_C05,
     "squids_forms": SQUIDS_FORMS,
     "squids_members": [members_rule("squids", SQUIDS_MEMBERS)],
